@@ -11,7 +11,7 @@ meta["property"] = pid
 meta["confirmed_by_main_session"] = {
     "demo_on_clean_tree": "PASS (exit 0)",
     "demo_with_change": "FAIL (exit 1)",
-    "how": "tools/try_seeded.sh: git -C /repo apply patch.diff; demo.py; ./check <ID> --tier quick; git -C /repo checkout -- pyxel",
+    "how": "tools/try_seeded.sh (git -C /repo apply patch.diff; demo.py; ./check <ID> --tier quick; git -C /repo checkout -- pyxel) or, from round 6 on, tools/wt_try.sh (the same inside a scratch worktree put first on PYTHONPATH, /repo untouched)",
     "caught_by": caught_by.split(","),
     "note": note,
 }
